@@ -229,8 +229,26 @@ func pkgGenInner(rng *Rng) pkgTree {
 		files["/app/node_modules/dep/index.js"] = "module.exports = 'dep@app';\n"
 		symlinks["/app/node_modules/linked"] = "../../workspace/linked"
 	}
+	nested := false
+	if rng.Intn(3) == 0 { // a package behind two nested directory symlinks: node_modules/@lnk -> /links, /links/ui -> /store/node_modules/ui
+		nested = true
+		files["/store/node_modules/ui/package.json"] = `{"name": "ui", "main": "./index.js"}`
+		files["/store/node_modules/ui/index.js"] = "module.exports = require('./tokens.js') + require('dep2');\n"
+		files["/store/node_modules/ui/tokens.js"] = "module.exports = 'tokens@store';\n"
+		files["/store/node_modules/dep2/index.js"] = "module.exports = 'dep2@store';\n"
+		files["/app/node_modules/dep2/index.js"] = "module.exports = 'dep2@app';\n"
+		files["/links/tokens.js"] = "module.exports = 'tokens@links';\n"
+		files["/links/node_modules/dep2/index.js"] = "module.exports = 'dep2@links';\n"
+		symlinks["/app/node_modules/@lnk"] = "../../links"
+		symlinks["/links/ui"] = "../store/node_modules/ui"
+		entry := files["/app/src/bundle-entry.js"]
+		files["/app/src/bundle-entry.js"] = entry + "require('@lnk/ui'); require('@lnk/ui/tokens.js');\n"
+	}
 	// specifiers
 	var specs []string
+	if nested {
+		specs = append(specs, "@lnk/ui", "@lnk/ui/tokens.js", "@lnk/ui/index.js", "@lnk/ui/package.json", "@lnk/tokens.js")
+	}
 	for _, p := range []string{"pkg", "@s/pkg", "bare", "linked", "app"} {
 		specs = append(specs, p)
 		for _, k := range pkgSubpathKeys {
@@ -263,6 +281,10 @@ func pkgGenInner(rng *Rng) pkgTree {
 	if _, ok := files["/workspace/linked/package.json"]; ok {
 		importers = append(importers, "/app/node_modules/linked/lib/uses-dep.js")
 		specs = append(specs, "dep")
+	}
+	if nested {
+		importers = append(importers, "/app/node_modules/@lnk/ui/index.js")
+		specs = append(specs, "dep2", "./tokens.js")
 	}
 	for _, s := range specs {
 		for _, imp := range importers {
